@@ -26,18 +26,22 @@ func tagName(tag string) (name string, opts []string) {
 }
 
 func walkType(t reflect.Type, ypfx, jpfx string, out *[]keyPath, depth int) {
+	walkTypeE(t, ypfx, jpfx, out, depth, true)
+}
+
+func walkTypeE(t reflect.Type, ypfx, jpfx string, out *[]keyPath, depth int, emitSelf bool) {
 	if depth > 12 {
 		return
 	}
 	switch t.Kind() {
 	case reflect.Ptr:
-		walkType(t.Elem(), ypfx, jpfx, out, depth+1)
+		walkTypeE(t.Elem(), ypfx, jpfx, out, depth+1, emitSelf)
 	case reflect.Struct:
 		if t.String() == "time.Time" {
 			*out = append(*out, keyPath{yaml: ypfx, json: jpfx, kind: "time"})
 			return
 		}
-		if ypfx != "" {
+		if ypfx != "" && emitSelf {
 			*out = append(*out, keyPath{yaml: ypfx, json: jpfx, kind: "object"})
 		}
 		for i := 0; i < t.NumField(); i++ {
@@ -57,7 +61,7 @@ func walkType(t reflect.Type, ypfx, jpfx string, out *[]keyPath, depth int) {
 				continue
 			}
 			if inline {
-				walkType(f.Type, ypfx, jpfx, out, depth+1)
+				walkTypeE(f.Type, ypfx, jpfx, out, depth+1, false)
 				continue
 			}
 			if yn == "" {
